@@ -119,7 +119,7 @@ func init() {
 		var ops []Op
 		add := func(o ...Op) { ops = append(ops, o...) }
 		fields := []string{"f", "g", ""}
-		vals := []string{"", "a", "10", "9223372036854775807", "1.5", "x\r\n"}
+		vals := []string{"", "a", "10", "9223372036854775807", "-9223372036854775808", "1.5", "x\r\n"}
 		add(C("HLEN", k0), C("HGETALL", k0), C("HKEYS", k0), C("HVALS", k0))
 		for _, f := range fields {
 			add(C("HGET", k0, f), C("HEXISTS", k0, f), C("HSTRLEN", k0, f), C("HDEL", k0, f))
@@ -127,7 +127,7 @@ func init() {
 				add(C("HSET", k0, f, v))
 			}
 			add(C("HSETNX", k0, f, "a"), C("HSETNX", k0, f, ""))
-			for _, n := range []string{"1", "-1", "9223372036854775807", "x", "1.5"} {
+			for _, n := range []string{"1", "-1", "9223372036854775807", "-9223372036854775808", "x", "1.5"} {
 				add(C("HINCRBY", k0, f, n))
 			}
 			for _, x := range []string{"0.5", "-1", "1e3", "nan", "inf", "x"} {
